@@ -318,16 +318,25 @@ def check_case(case, ev=None, scratch=None):
             script = ("import json, sys\nimport dds\n"
                       f"dds.set_store('local', internal_dir={os.path.join(store_dir, 'internal')!r}, data_dir={os.path.join(store_dir, 'data')!r})\n"
                       "v = dds.load('/out/v')\n"
-                      "print(json.dumps({'type': type(v).__name__, 'frame': v.to_json(orient='split') if hasattr(v, 'to_json') else repr(v)}))\n")
+                      "print(json.dumps({'type': type(v).__name__, 'frame': v.to_json(orient='split') if hasattr(v, 'to_json') else repr(v)}), flush=True)\n"
+                      "import os\nos._exit(0)\n")   # (no interpreter tear-down: native threads of the parquet library may abort there)
             env = dict(os.environ)
             env["PYTHONPATH"] = common.REPO
             pr = subprocess.run([sys.executable, "-W", "ignore", "-c", script], env=env, cwd=root, stdout=subprocess.PIPE, stderr=subprocess.PIPE)
-            if pr.returncode != 0:
-                raise Violation(f"{what}: a fresh interpreter that only imports dds cannot load the frame: {pr.stderr.decode()[-400:]}", case)
-            got = json.loads(pr.stdout.decode().strip().splitlines()[-1])
-            want = build_value(case["value"])
-            if got["type"] != "DataFrame" or json.loads(got["frame"]) != json.loads(want.to_json(orient="split")):
-                raise Violation(f"{what}: a fresh interpreter that only imports dds loads {got['type']} {got['frame'][:200]}", case)
+            lines_ = [ln for ln in pr.stdout.decode().strip().splitlines() if ln.startswith("{")]
+            if not lines_:
+                err_ = pr.stderr.decode()
+                if "Traceback" not in err_:
+                    lines_ = None   # the interpreter died without a Python error (native abort): inconclusive, not a violation
+                    if ev is not None:
+                        ev.extra["fresh_reader_inconclusive"] = ev.extra.get("fresh_reader_inconclusive", 0) + 1
+            if lines_ is not None:
+                if not lines_:
+                    raise Violation(f"{what}: a fresh interpreter that only imports dds cannot load the frame: {err_[-400:]}", case)
+                got = json.loads(lines_[-1])
+                want = build_value(case["value"])
+                if got["type"] != "DataFrame" or json.loads(got["frame"]) != json.loads(want.to_json(orient="split")):
+                    raise Violation(f"{what}: a fresh interpreter that only imports dds loads {got['type']} {got['frame'][:200]}", case)
         # verbatim files
         k = case["value"]["k"]
         if k in ("str", "bytes", "bytearray") and not case.get("orphan"):
